@@ -18,3 +18,19 @@ CLAIMED["C17"] = dict(
     text="SevPolicy/TdxPolicy and their helpers are proved, for all base policies, endorsements and options, to write only freshly allocated memory (the base policy is untouched), to preserve every set base value or fail (guest policy, measurement, minimum SVN, MRTD allow-list), to place exactly the endorsement's measurement / policy / CA-bundle PEM blocks in the result, and to carry the unrelated scalar and bytes fields of the base over unchanged.",
     note="proto.Clone is modelled as a fresh deep copy (depth 3); pem.Decode by an uninterpreted deterministic function; element-wise equality of the repeated trusted-key fields after SevPolicy is proved at modifyPolicy level only (listed as not covered at SevPolicy level).",
 )
+CLAIMED["C14"] = dict(
+    text="tryChange and RetrySubmit are proved against ghost counters on the VersionControl/ChangeOps interfaces, with the error of every interface call a free variable (all outcome sequences): at most max(retries,0)+1 workspaces are requested, a further attempt follows only a retriable error, every failed attempt's workspace is destroyed, success is reported exactly when a commit succeeded and Result is recorded once; changeEndorsements parses the manifest bytes it just read from this attempt's workspace.",
+    note="Interface methods are assumed contracts with ghost counters (/verif/stubs/endorse_ifaces.spec); the caller-supplied change function is assumed not to touch the counters other than through its arguments; retry budget == MaxInt is excluded (bound not representable).",
+)
+CLAIMED["C15"] = dict(
+    text="With DryRun set no VersionControl.GetChangeOps and no ChangeOps method is invoked on any path of VirtualFirmware/commitEndorsement/RetrySubmit/tryChange/changeEndorsements/addEndorsement/snapshotEndorsement/defaultGenerateBasename/fileExists/writeEndorsement (ghost call counters unchanged, and every interface call on the absent workspace is proved unreachable: nil-invoke obligations); with MeasurementOnly additionally no Signer or CertificateAuthority method is invoked; the golden measurement handed to SignDoc is the one GoldenMeasurement returned.",
+    note="Flag wiring in cmd/ is not under contract. Interface implementations are assumed contracts; FromContext lookups are trusted to be deterministic functions of the context.",
+)
+CLAIMED["C06"] = dict(
+    text="GoldenMeasurement is proved to put SHA-384 of the supplied image, the requested ClSpec/Commit/SVSM measurement and exactly the requested technology sections (each computed from that same image) in the document; SignDoc is proved to embed the primary key's certificate and bundle before marshalling and to sign nothing but the marshalled document.",
+    note="sev.UnsignedSnp / tdx.UnsignedTDX are represented here by their contracts (per-count and per-shape content is checked under their own functions; see evidence for which are verified). protobuf Marshal/Unmarshal are modelled as inverse on scalar and bytes fields.",
+)
+CLAIMED["C03"] = dict(
+    text="SignDoc's contract: the signature request is for the SHA-256 of exactly the bytes stored as SerializedUefiGolden, with PSS options salt=hash-length/SHA-256 (precondition of the Signer contract), under the key the authority names primary; the embedded certificate and bundle are the authority's for that same key and are set before marshalling; the returned signature is stored unchanged. Together with C01's EndorsementProto contract (verification over the stored bytes with the embedded certificate) these are the sign/verify halves of the property.",
+    note="The cryptographic step (PSS verify accepts what PSS sign produced; certificate created by the CA chains to its root) and the key-rotation history are assumed, not proved here; see DESIGN.md §6 C03.",
+)
